@@ -18,14 +18,29 @@ ID_FIELDS = {'Frame': ('id', 'parent_id'), 'MemoryCard': ('source_frame_id', 'fr
 SEQ_PARAM_OK = ('parent_seq', 'sequence', 'seq')
 
 
+def seq_wrappers(F):
+    """local wrappers of the WAL append that hand the sequence number on: their Ok value derives from the append's result"""
+    out = set()
+    for p in lib.wrappers_of(F, ('Memvid::append_wal_entry', 'EmbeddedWal::append_entry')):
+        g = F.fns[p]
+        if g.key in SOURCES:
+            continue
+        ops = lib.ret_operands(g)
+        sl = lib.slice_back(g, ops, through_calls=True)
+        if any(c.is_(SOURCES) or c.local_callee in out for c in sl.calls) and 'u64' in g.local_ty(0):
+            out.add(p)
+    return out
+
+
 def run(ctx):
     ctx.rule('FLOW-C26a', 'a WAL sequence number (result of append_wal_entry) never reaches a parameter named *frame_id* nor an id field of a frame-bearing struct')
     ctx.rule('FLOW-C26b', 'frame-id sinks in put_internal derive from next_frame_id() taken before the append')
     F = ctx.facts()
     n_sinks = 0
     n_fns = 0
+    wrappers = seq_wrappers(F)
     for fn in F.fns.values():
-        srcs = [c for c in fn.calls() if c.is_(SOURCES)]
+        srcs = [c for c in fn.calls() if c.is_(SOURCES) or c.local_callee in wrappers]
         if not srcs or fn.is_closure:
             continue
         n_fns += 1
@@ -36,7 +51,7 @@ def run(ctx):
             src_locals.add(c.dest.l)
 
         def tainted(op, pos):
-            sl = lib.slice_back(fn, [op], through_calls=True, at=pos, stop_at_calls=SOURCES)
+            sl = lib.slice_back(fn, [op], through_calls=True, at=pos, stop_at_calls=SOURCES + tuple(F.fns[w].key for w in wrappers))
             return [c for c in sl.calls if c in srcs], sl
         for c in fn.calls():
             lc = c.local_callee
